@@ -31,6 +31,10 @@ def history_check(prop, tier, seed, shapes, monitors, modules, profiles, p_inval
         extra = gen.refs_scenarios(shapes, L) + [s for s in gen.ptr_scenarios(shapes, L) if s.tag != "ptr-read"] + \
                 [s for s in gen.iter_scenarios(shapes, min(L, 3)) if s.tag == "itermut"]
         suites.append(run_suite(prop, extra, profiles, monitors, "refs-ptr", compare_model=False))
+        # calls that panic on invalid arguments of the mutable-slice API (index lists that are not permutations, out-of-range
+        # swap / sort ranges): nothing may be destroyed twice or leaked
+        suites.append(run_suite(prop, gen.slicemut_invalid([x for x in shapes if x in ("One", "Two", "Heap", "NMid", "DrN")] if tier == "quick" else shapes, min(z["L"], 3), seed),
+                                profiles, monitors, "slicemut", compare_model=False))
     if prop == "C08":
         # the other ways an element is moved in or out must not run the struct's destructor either: pointer writes / reads,
         # RefMut::replace, writes through views and mutable iterators, conversions of references
